@@ -62,17 +62,18 @@ type Token struct {
 	Neutral     bool
 	UnderMark   bool // sits in (or under) a Mark reference: only its message survives, as unsafe
 	UnderHidden bool // sits behind a barrier / secondary error / error argument
+	UnderMulti  bool // sits in a branch of a multi-cause error
 	Kind        Kind
 }
 
 // Tokens lists all tokens of the tree.
 func (n *Node) Tokens() []Token {
 	var out []Token
-	var walk func(n *Node, underMark, underHidden bool)
-	walk = func(n *Node, underMark, underHidden bool) {
+	var walk func(n *Node, underMark, underHidden, underMulti bool)
+	walk = func(n *Node, underMark, underHidden, underMulti bool) {
 		add := func(s Str) {
 			if s.Tok != "" {
-				out = append(out, Token{Tok: s.Tok, Safe: s.Safe, Neutral: s.Neutral, UnderMark: underMark, UnderHidden: underHidden, Kind: n.K})
+				out = append(out, Token{Tok: s.Tok, Safe: s.Safe, Neutral: s.Neutral, UnderMark: underMark, UnderHidden: underHidden, UnderMulti: underMulti, Kind: n.K})
 			}
 		}
 		for _, s := range n.S {
@@ -90,13 +91,13 @@ func (n *Node) Tokens() []Token {
 			}
 		}
 		for _, k := range n.Kids {
-			walk(k, underMark, underHidden)
+			walk(k, underMark, underHidden, underMulti || kinds[n.K].Arity == Multi)
 		}
 		for _, h := range n.Hid {
-			walk(h, underMark || n.K == WMark, true)
+			walk(h, underMark || n.K == WMark, true, underMulti)
 		}
 	}
-	walk(n, false, false)
+	walk(n, false, false, false)
 	return out
 }
 
